@@ -95,6 +95,10 @@ pub struct Mon {
     pub delev: HashMap<Pubkey, (i64, u64)>,
     // C07/C14: banks that were ever killed by bankruptcy
     pub ever_killed: HashSet<Pubkey>,
+    // C08: accounts whose receivership was started inside the transaction being observed
+    pub rcv_started_in_tx: HashSet<Pubkey>,
+    // C14: pause window of each group as announced by the global fee state at propagation time
+    pub pause_window: HashMap<Pubkey, (i64, i64)>,
 }
 
 /// Program error codes (Anchor custom codes) the monitors need to recognise.
@@ -168,6 +172,7 @@ impl Mon {
 
     pub fn on_tx_commit(&mut self, w: &World, ixs: &[solana_sdk::instruction::Instruction], out: &crate::chain::TxOut) {
         self.tx_committed += 1;
+        self.rcv_started_in_tx.clear();
         self.on_commit(w);
         if self.on.iter().any(|p| matches!(*p, "C10" | "C11" | "C12")) {
             self.brackets_on_commit(w, ixs, out);
@@ -184,6 +189,7 @@ impl Mon {
     pub fn on_reject(&mut self, w: &World, ixs: &[solana_sdk::instruction::Instruction], out: &crate::chain::TxOut) {
         self.tx_rejected += 1;
         self.bracket.clear();
+        self.rcv_started_in_tx.clear();
         if let (Some(c), Some(ev)) = (out.custom_code(), out.events.iter().rev().find(|e| e.program == MFI && !e.ok())) {
             if self.on.iter().any(|p| matches!(*p, "C04" | "C11")) {
                 self.c04_reject(w, ev, c);
@@ -657,7 +663,7 @@ impl Mon {
             let (nk, _np, nq) = &info.accts[1];
             self.r.count("C16.transfers");
             if let (Some(op), Some(oq), Some(nq)) = (op, oq, nq) {
-                if op.account_flags & ACCOUNT_DISABLED != 0 || self.transferred.contains(ok) {
+                if op.migrated_to != Pubkey::default() || self.transferred.contains(ok) {
                     self.r.violate("C16", "C16/TransferAccount/second-transfer-from-same-account", format!("old {}", ok));
                 }
                 self.transferred.insert(*ok);
@@ -706,7 +712,8 @@ impl Mon {
                 Some(_) => {}
                 None => {
                     // opened now: the tag must be the bank's tag at this moment
-                    if let Some((v, _)) = ctx {
+                    // (a transfer moves existing positions with the tags they were opened with)
+                    if let Some((v, _)) = ctx.filter(|(_, i)| !matches!(i.kind, Kind::TransferAccount | Kind::TransferAccountPda)) {
                         if let Some(bank) = v.post(&b.bank_pk).and_then(bank_of) {
                             if bank.config.asset_tag != b.bank_asset_tag {
                                 self.r.violate("C16", &format!("C16/{}/position-opened-with-wrong-tag", kindname), format!("account {} bank {}: bank tag {} position tag {}", ak, b.bank_pk, bank.config.asset_tag, b.bank_asset_tag));
